@@ -262,7 +262,9 @@ int janet_fiber_funcframe(JanetFiber *fiber, JanetFunction *func) {
 static void janet_env_detach(JanetFuncEnv *env) {
     /* Check for closure environment */
     if (env) {
-        janet_env_valid(env);
+        /* Only an environment that still lives on a fiber's stack has anything to detach. A frame of a
+         * fiber loaded from an image can carry any environment (already detached, or not valid at all). */
+        if (!janet_env_valid(env) || env->offset <= 0) return;
         int32_t len = env->length;
         size_t s = sizeof(Janet) * (size_t) len;
         Janet *vmem = janet_malloc(s);
